@@ -40,8 +40,8 @@ ASSUMPTIONS = [
 
 def BOUNDS(tier):
     if tier == "quick":
-        return {"plans": [[2, 3], [3, 1]], "raises": 2, "styles": 6}
-    return {"plans": [[3, 2], [4, 1]], "raises": 3, "styles": 6}
+        return {"plans": [[2, 3], [3, 1]], "raises": 2, "styles": 8}
+    return {"plans": [[3, 2], [4, 1]], "raises": 3, "styles": 8}
 
 
 def schema(tier):
@@ -50,7 +50,7 @@ def schema(tier):
         "a": [
             ("style", BOUNDS(tier)["styles"]),
             ("typed", 2),
-            ("exit", 8),
+            ("exit", 9),
             ("sf", 2),
             ("ef", 2),
             ("xf", 3),
@@ -60,7 +60,8 @@ def schema(tier):
 
 # exit index -> progs.EXITS index: ok, ValueError, OSError, Custom, KeyboardInterrupt,
 # StrRaises, ValueError caught one level up, ValueError to the top
-EXIT_MAP = [0, 1, 2, 3, 4, 6, 11, 12]
+EXIT_MAP = [0, 1, 2, 3, 4, 6, 11, 12, 16]  # 16: exception whose extractor raises (its traceback is logged)
+STYLE_MAP = [0, 1, 2, 3, 4, 5, 8, 9]  # no remote styles (C06); 8, 9 = re-entry of the current action
 
 
 CONC_THR = [0, 5, 11, 14, 17, 21, 30]  # indexes into c05.thread_harnesses
@@ -105,6 +106,10 @@ def cases(unit, tier):
         for x in progs.walk(q):
             if x[0] == "a" and "exit" in x[1]:
                 x[1]["exit"] = EXIT_MAP[x[1]["exit"]]
+            if x[0] == "a" and "style" in x[1]:
+                x[1]["style"] = STYLE_MAP[x[1]["style"]]
+        if not progs.valid_default(q):
+            continue
         yield {"prog": q, "raises": BOUNDS(tier)["raises"]}
 
 
